@@ -3,6 +3,7 @@ package main
 // Property-level checks: which obligations constitute which property, evidence, VIOLATION lines.
 
 import (
+	"os/exec"
 	"encoding/json"
 	"flag"
 	"fmt"
@@ -369,6 +370,14 @@ func cmdCheck(args []string) {
 	for _, e := range engineErrs {
 		assumptions = append(assumptions, "ENGINE ERROR: "+e)
 	}
+	// thorough tier: sensitivity corpus — every stored property-breaking change (seeded changes and canaries of this
+	// property) is applied to a scratch copy of the current tree and must make this very check fail there
+	var sens map[string]any
+	var sensMissed []string
+	if *thorough && violations == 0 && !*noEvidence && os.Getenv("GOVC_NO_CORPUS") == "" {
+		sens, sensMissed = sensitivityCorpus(id, *repo)
+		wall = time.Since(t0).Seconds()
+	}
 	ev := map[string]any{
 		"property_id": id, "tier": tier, "seed": seed, "level": pd.Level, "wall_s": round3(wall), "violations": violations,
 		"assumptions": assumptions,
@@ -390,6 +399,9 @@ func cmdCheck(args []string) {
 			"known_findings":           len(lines) - violations,
 		},
 	}
+	if sens != nil {
+		ev["coverage"].(map[string]any)["sensitivity_corpus"] = sens
+	}
 	if !*noEvidence {
 		os.MkdirAll(filepath.Join(verifRoot(), "evidence"), 0o755)
 		b, _ := json.MarshalIndent(ev, "", " ")
@@ -404,6 +416,10 @@ func cmdCheck(args []string) {
 		os.Exit(2)
 	}
 	if len(engineErrs) > 0 {
+		os.Exit(2)
+	}
+	if len(sensMissed) > 0 {
+		fmt.Printf("govc: self-test failed — stored property-breaking changes no longer detected: %s (the pass above is not trustworthy)\n", strings.Join(sensMissed, ", "))
 		os.Exit(2)
 	}
 	if violations > 0 {
@@ -478,4 +494,69 @@ func backendName(o *Obligation) string {
 		return "none"
 	}
 	return b
+}
+
+// sensitivityCorpus applies each stored change that breaks property id to a scratch copy of repo (outside /repo and
+// /verif, removed afterwards) and runs this check on the copy. A change that no longer applies is skipped and listed.
+func sensitivityCorpus(id, repo string) (map[string]any, []string) {
+	type item struct{ name, patch string }
+	var items []item
+	ms, _ := filepath.Glob(filepath.Join(verifRoot(), "selftest", "mutants", id+"-*.patch"))
+	for _, m := range ms {
+		items = append(items, item{"canary/" + strings.TrimSuffix(filepath.Base(m), ".patch"), m})
+	}
+	ss, _ := filepath.Glob(filepath.Join(verifRoot(), "seeded", id+"-*", "patch.diff"))
+	for _, m := range ss {
+		items = append(items, item{"seeded/" + filepath.Base(filepath.Dir(m)), m})
+	}
+	sort.Slice(items, func(i, j int) bool { return items[i].name < items[j].name })
+	var detected, skipped, missed []string
+	var rows []map[string]any
+	self, _ := os.Executable()
+	for _, it := range items {
+		tmp, err := os.MkdirTemp("", "govc-corpus-")
+		if err != nil {
+			skipped = append(skipped, it.name+": "+err.Error())
+			continue
+		}
+		func() {
+			defer os.RemoveAll(tmp)
+			cp := exec.Command("rsync", "-a", "--exclude", ".git", strings.TrimSuffix(repo, "/")+"/", tmp+"/")
+			if out, err := cp.CombinedOutput(); err != nil {
+				skipped = append(skipped, it.name+": copy failed: "+trunc(string(out), 100))
+				return
+			}
+			pa := exec.Command("patch", "-p1", "-s", "--no-backup-if-mismatch", "-d", tmp, "-i", it.patch)
+			if out, err := pa.CombinedOutput(); err != nil {
+				skipped = append(skipped, it.name+": patch does not apply to the current tree: "+trunc(string(out), 100))
+				return
+			}
+			t1 := time.Now()
+			c := exec.Command(self, "check", "--no-evidence", "--repo", tmp, id)
+			c.Env = append(os.Environ(), "VERIF_TIER=quick", "GOFLAGS=-mod=mod", "GOPROXY=off", "GOSUMDB=off", "GOTOOLCHAIN=local")
+			out, _ := c.CombinedOutput()
+			rc := c.ProcessState.ExitCode()
+			nv := strings.Count(string(out), "\nVIOLATION ") + map[bool]int{true: 1}[strings.HasPrefix(string(out), "VIOLATION ")]
+			first := ""
+			for _, l := range strings.Split(string(out), "\n") {
+				if strings.HasPrefix(l, "VIOLATION ") {
+					if i := strings.Index(l, "obligation="); i >= 0 {
+						first = l[i+len("obligation="):]
+					}
+					break
+				}
+			}
+			rows = append(rows, map[string]any{"change": it.name, "exit": rc, "violations": nv, "first_obligation": first, "wall_s": round3(time.Since(t1).Seconds())})
+			switch {
+			case rc == 1 && nv > 0:
+				detected = append(detected, it.name)
+			case rc == 0:
+				missed = append(missed, it.name)
+			default:
+				skipped = append(skipped, fmt.Sprintf("%s: check ended with exit %d on the scratch copy", it.name, rc))
+			}
+		}()
+	}
+	return map[string]any{"changes": len(items), "detected": len(detected), "missed": missed, "skipped": skipped, "runs": rows,
+		"note": "bounded self-test of the checker, not part of the proof: each stored property-breaking change, applied to a scratch copy of the current tree, must fail this check"}, missed
 }
